@@ -91,6 +91,17 @@ def dispatch(ex, e, text, handler, recv, args, kwargs, st):
                 full = f"{recv.text}.{name}"
                 if full in GLOBAL_BUILTINS:
                     return GLOBAL_BUILTINS[full](ex, st, args, kwargs)
+            if isinstance(recv, (VTuple, VSeq)) and name in ("append", "extend") and isinstance(e.func.value, ast.Name):
+                # local list held by value in a local name: rebind the name
+                if not (isinstance(recv, VSeq) or recv.is_list):
+                    raise Unsupported("append on a tuple")
+                add = VTuple([args[0]], True) if name == "append" else ex.to_seq_value(args[0], st)
+                if isinstance(recv, VTuple) and isinstance(add, VTuple):
+                    new = VTuple(recv.items + add.items, True)
+                else:
+                    new = arith.seq_concat(arith.as_seq(recv), arith.as_seq(add))
+                st.env[e.func.value.id] = new
+                return [Res("val", None, st)]
             if isinstance(recv, (VTuple, VSeq)) and name in ("index", "count"):
                 raise Unsupported(f"tuple.{name}")
             raise Unsupported(f"call to `{text}` has no contract, inline declaration or model")
@@ -110,6 +121,9 @@ def dispatch(ex, e, text, handler, recv, args, kwargs, st):
             return outs
     if handler is None:
         name = text
+        if name.startswith("list[") or name.startswith("dict[") and not args:
+            if name.startswith("list["):
+                return [Res("val", VTuple([], True), st)]
         if name in GLOBAL_BUILTINS:
             return GLOBAL_BUILTINS[name](ex, st, args, kwargs)
         raise Unsupported(f"call to `{text}` has no contract, inline declaration or model")
@@ -461,7 +475,18 @@ def b_isinstance(ex, st, args, kw):
     raise Unsupported(f"isinstance({v!r}, {c!r})")
 
 
+def b_sum(ex, st, args, kw):
+    v = args[0]
+    if isinstance(v, VTuple):
+        tot = args[1] if len(args) > 1 else 0
+        for it in v.items:
+            tot = arith.binop("+", tot, it, lambda *a: None)
+        return [Res("val", tot, st)]
+    raise Unsupported("sum over a symbolic-length sequence")
+
+
 GLOBAL_BUILTINS = {
+    "sum": b_sum,
     "len": b_len,
     "abs": b_abs,
     "min": _minmax(True),
